@@ -83,7 +83,7 @@ add("C12", "model_checking",
 
 add("C16", "model_checking",
     "Stateless model checking of the real templates under a controlled scheduler: real pthreads, exactly one runnable, scheduling point at every storage access (probe backend hook) plus each thread's tail; all interleavings of the 2-thread programs and all interleavings with at most 2 (quick) / 3 (thorough) preemptions of the 3-thread programs, "
-    "for every storage order x {direct, nearest, linear} x N in 1..3, shared and per-thread views (also per-thread views of a field no view was ever made of - the state after loading or conversion), readers and a writer on disjoint cells; every execution runs on freshly created worker threads. Each schedule is compared with the sequential run (results, final storage) and scanned for conflicting accesses; failing schedules are replayed twice. "
+    "for every storage order x {direct, nearest, linear, clamp, affine over nearest, out-of-range default} x N in 1..3, shared and per-thread views (also per-thread views of a field no view was ever made of - the state after loading or conversion), readers and a writer on disjoint cells; every execution runs on freshly created worker threads. Each schedule is compared with the sequential run (results, final storage) and scanned for conflicting accesses; failing schedules are replayed twice. "
     "Two further explorations refine the grain without source hooks: function entries as scheduling points (-finstrument-functions) and, for first-use state, every schedule in a freshly forked child with a scheduling point at every basic block of covfie code (-fsanitize-coverage=trace-pc). Blocking primitives a correct library might use (static-init guards, pthread mutexes) are interposed so that waiting is visible to the scheduler. "
     "Free-running ThreadSanitizer passes (warm and cold start, T up to 16), an object-file inventory of writable static data in covfie::, and a Spin model of the scheduler protocol itself complete it.",
     "sequentially consistent hand-off; T<=3 under the scheduler; configurations that exceed their wall-clock budget, or whose recorded prefixes stop replaying because the code under test keeps process-wide state across executions, are reported as capped (never as violations); TSan pass is a detector, not an enumeration",
@@ -112,7 +112,7 @@ add("C17", "exploration",
     "DESIGN.md 2/C17", "E3+E4")
 add("C06", "model_checking",
     "States are distinct byte streams: for every stack of the serialisable catalogue x configuration variants (ordinary, special values in every blob, 1-cell extents, empty field, a payload of several KiB, Morton/Hilbert storage cut off after the largest reachable curve position) x stored bit patterns (rotations and every scalar position in turn) the real dump is produced, dissected by an independent format automaton, "
-    "loaded by the real reader and compared typed: every layer's configuration bit-identical, every stored scalar bit-identical, re-dump byte-identical, exact consumption; two builds.",
+    "loaded by the real reader and compared typed: every layer's configuration bit-identical, every stored scalar bit-identical (as flat cells and as looked up through the storage order's view at every lattice coordinate), re-dump byte-identical, exact consumption; two builds.",
     "little-endian x86-64; catalogue = adjacency cover (every layer and adjacency), not every stack",
     "exhaustive enumeration of (stack, configuration variant, bit pattern, position) with a format automaton as model; every transition (dump, load, re-dump) run on the implementation",
     "DESIGN.md 2/C06", "E4+E7")
